@@ -594,6 +594,17 @@ func (tm *TaskMaster) StopTask(id string) error {
 	return tm.stopTask(id)
 }
 
+// StopExecutingTask stops et unless it is no longer the executing task of its ID,
+// i.e. the task has been stopped, or stopped and started again, in the meantime.
+func (tm *TaskMaster) StopExecutingTask(et *ExecutingTask) error {
+	tm.mu.Lock()
+	defer tm.mu.Unlock()
+	if cur, ok := tm.tasks[et.Task.ID]; !ok || cur != et {
+		return nil
+	}
+	return tm.stopTask(et.Task.ID)
+}
+
 func (tm *TaskMaster) DeleteTask(id string) error {
 	tm.mu.Lock()
 	defer tm.mu.Unlock()
